@@ -87,6 +87,50 @@ class Gen:
     def document(self, depth=4, width=4):
         return self.container(depth, width)
 
+    def share(self, doc, times=None):
+        """Make the document a DAG: the same list / dict OBJECT referenced from several positions (what a YAML loader
+        produces for anchors and aliases, or `[row] * 3`).  No cycles.  The node-level meaning is that of the unfolded tree
+        (which is what the encoders hand to the model)."""
+        for _ in range(times if times is not None else self.r.randint(1, 3)):
+            conts = []
+
+            def walk(v, path):
+                if isinstance(v, (list, dict)):
+                    conts.append((path, v))
+                    for k, x in (enumerate(v) if isinstance(v, list) else list(v.items())):
+                        walk(x, path + (k,))
+            walk(doc, ())
+            inner = [(p, c) for p, c in conts if p and c]
+            if not inner:
+                return doc
+            pc, c = self.r.choice(inner)
+            below = set()
+
+            def reach(v):
+                if isinstance(v, (list, dict)) and id(v) not in below:
+                    below.add(id(v))
+                    for x in (v if isinstance(v, list) else v.values()):
+                        reach(x)
+            reach(c)
+            targets = [(p, t) for p, t in conts if id(t) not in below]
+            if not targets:
+                return doc
+            pt, t = self.r.choice(targets)
+            if isinstance(t, list):
+                k = self.r.random()
+                if k < 0.4:
+                    t.append(c)
+                elif k < 0.7:
+                    t.insert(self.r.randint(0, len(t)), c)
+                else:
+                    t.extend([c] * self.r.randint(1, 2))
+            else:
+                for _k in range(self.r.randint(1, 2)):
+                    key = self.key()
+                    if key not in t:
+                        t[key] = c
+        return doc
+
     # -- values occurring in a document ----------------------------------
     def harvest(self, doc, out=None, depth=0):
         """All (value-ish) things occurring in the document: values, keys, lengths, types."""
@@ -109,15 +153,24 @@ class Gen:
         return out
 
 
-def copy_value(v):
-    """Deep copy preserving types exactly."""
+def copy_value(v, _memo=None):
+    """Deep copy preserving types exactly, and preserving which containers are one object (a document in which the same list /
+    dict sits at several positions is copied to one of the same shape)."""
+    if not isinstance(v, (list, tuple, dict)):
+        return v
+    _memo = {} if _memo is None else _memo
+    if id(v) in _memo:
+        return _memo[id(v)]
     if isinstance(v, list):
-        return [copy_value(i) for i in v]
-    if isinstance(v, tuple):
-        return tuple(copy_value(i) for i in v)
+        out = _memo[id(v)] = []
+        out.extend(copy_value(i, _memo) for i in v)
+        return out
     if isinstance(v, dict):
-        return {k: copy_value(x) for k, x in v.items()}
-    return v
+        out = _memo[id(v)] = {}
+        for k, x in v.items():
+            out[k] = copy_value(x, _memo)
+        return out
+    return tuple(copy_value(i, _memo) for i in v)
 
 
 def type_exact_eq(a, b):
@@ -133,3 +186,47 @@ def type_exact_eq(a, b):
     if isinstance(a, float):
         return a.hex() == b.hex()
     return a == b
+
+
+def spoil(x, _seen=None):
+    """Edit a (JSON-like) result in place, at every level: what a caller may do with a value it was handed.  Used to check
+    that a second call does not hand out (or depend on) the same objects."""
+    _seen = _seen if _seen is not None else set()
+    if id(x) in _seen:
+        return
+    _seen.add(id(x))
+    if isinstance(x, list):
+        for i in x:
+            spoil(i, _seen)
+        x.append("spoiled")
+        if len(x) > 1:
+            x[0] = {"spoiled": 0}
+    elif isinstance(x, dict):
+        for i in list(x.values()):
+            spoil(i, _seen)
+        for k in list(x)[:1]:
+            x[k] = ["spoiled"]
+        x["spoiled"] = 1
+
+
+def share_equal(x, pool=None):
+    """The same structure with every pair of type-exactly equal lists / dicts inside it made ONE object: what a YAML loader
+    builds for anchors and aliases, and what a caller who reuses a sub-spec passes in.  (Returns a new outer structure.)"""
+    pool = {} if pool is None else pool
+    if isinstance(x, list):
+        y = [share_equal(i, pool) for i in x]
+    elif isinstance(x, dict):
+        y = {k: share_equal(i, pool) for k, i in x.items()}
+    else:
+        return x
+    return pool.setdefault((type(y).__name__, repr(y)), y)
+
+
+def twin_all(g, v):
+    """A document == to v in which numbers / booleans are replaced by equal values of another type where there is one
+    (1 / True / 1.0): equal documents are still different documents."""
+    if isinstance(v, list):
+        return [twin_all(g, x) for x in v]
+    if isinstance(v, dict):
+        return {k: twin_all(g, x) for k, x in v.items()}
+    return g.twin(v)
